@@ -43,6 +43,13 @@ def gen_case(rng, tier, late=False, reread=False):
                 exc["al0"] = [z.real, z.imag]
         d["late"] = late
         d["reread"] = reread
+        if not reread and rng.random() < 0.25:
+            # some un-monitored components are placed as sub-solvers of their own and the circuit is FLATTENED after the
+            # monitors are declared: the monitors of the other components must survive
+            for i, c in enumerate(d["comps"]):
+                if i not in d["mon"] and not c.get("bare") and not c.get("shared") and rng.random() < 0.7:
+                    c["wrap"] = True
+            d["flatten"] = any(c.get("wrap") for c in d["comps"])
         if reread:
             # one component is a phase shifter whose value changes between the solves
             t = {0.0: 1, 0.5: 1j, 1.0: -1, 1.5: -1j}
@@ -77,6 +84,8 @@ def run_python(d):
     for i in d["mon"]:
         sol.monitor_structure(sts[i], name=f"M{i}")
     kw = {"PS": d["ps_vals"][0]} if d.get("reread") else {}
+    if d.get("flatten"):
+        sol.flatten()
     mod = sol.solve(**kw)
     exc = {n: complex(*v) for n, v in d["exc"].items()}
     if len(d["comps"]) % 2 == 0:
@@ -133,6 +142,10 @@ class MonStream(Stream):
                     for sub in itertools.combinations(range(nc), k):
                         e = copy.deepcopy(d)
                         e["mon"] = list(sub)
+                        for i in sub:                       # only un-monitored components are wrapped
+                            e["comps"][i].pop("wrap", None)
+                        if e.get("flatten"):
+                            e["flatten"] = any(c.get("wrap") for c in e["comps"])
                         out.append(e)
             else:
                 out.append(d)
